@@ -63,8 +63,10 @@ def main():
         code, out = sh("git -C /repo apply %s" % patch)
         assert code == 0, out
         try:
+            env = dict(os.environ, VERIF_EVIDENCE_DIR="/tmp/mutcheck-evidence",
+                       VERIF_REPLAY_DIR="/tmp/mutcheck-replay")
             for check in checks:
-                code, out = sh("./check %s --tier quick" % check, cwd=VERIF)
+                code, out = sh("./check %s --tier quick" % check, cwd=VERIF, env=env)
                 lines = [l for l in out.splitlines() if l.startswith(("VIOLATION", "KNOWN", "note:",
                                                                       "  clause"))]
                 report["checks"][check] = {"exit": code, "lines": lines[:6]}
